@@ -28,6 +28,7 @@ func callsNamed(in ssa.Instruction, name string) bool {
 
 func ruleCtx(c *Ctx) {
 	everyRecordRunsCode(c)
+	compiledBlocksNonEmpty(c)
 	ex := c.ssaFunc("interp", "interp.execute")
 	if ex == nil {
 		c.undecided("anchor:execute", token.NoPos, "interp.execute not found")
